@@ -50,8 +50,21 @@ def reduce_paramsets_requirements(paramsets_requirements, paramsets_user_configs
             # if v is a tuple, it's not user-configured, so convert to list
             if v == 'undefined':
                 continue
+            if v is None:
+                raise exceptions.InvalidModel(
+                    f"{paramset_name} requires the {k} attribute to be configured, but no value was provided."
+                )
             if isinstance(v, tuple):
                 v = list(v)
+            # no default to compare with (e.g. lumi): check against the number of parameters
+            elif (
+                isinstance(v, list)
+                and default_v is None
+                and len(v) != combined_paramset['n_parameters']
+            ):
+                raise exceptions.InvalidModel(
+                    f"Incorrect number of values ({len(v)}) for {k} were configured by you, expected {combined_paramset['n_parameters']}."
+                )
             # this implies user-configured, so check that it has the right number of elements
             elif isinstance(v, list) and default_v and len(v) != len(default_v):
                 raise exceptions.InvalidModel(
